@@ -35,11 +35,12 @@ class DataflowMonitor(Monitor):
         self.prod = producers(workload)
 
     def init(self, ex):
-        return {"out": {}}
+        return {"out": {}, "last": {}}
 
     def step(self, ex, tr, ms):
         v = []
         model = {k: dict(o) for k, o in ms["out"].items()}
+        last = {k: dict(o) for k, o in ms.get("last", {}).items()}
         for (_seq, tbl, ident, old, new) in tr.audit:
             if tbl == "S" and new == "NOT_STARTED" and old is not None:
                 model[tr.post.labels.get(ident, ident)] = {}  # re-armed: a new iteration starts from nothing
@@ -47,8 +48,9 @@ class DataflowMonitor(Monitor):
             s = e["stage"]
             spec = self.wl.spec(s)
             if spec is not None and spec.join == "AND":
-                v.extend(self.check_seen(tr, e, s, spec, model))
+                v.extend(self.check_seen(tr, e, s, spec, model, last.get(s, {})))
             model.setdefault(s, {}).update(e.get("out") or {})
+            last[s] = {k: x for k, x in e["ctx"].items() if k in self.prod and not isinstance(x, list)}
         # a stage that has just finished publishes exactly what its executions of this arming produced
         for (_seq, tbl, ident, old, new) in tr.audit:
             if tbl != "S" or new not in ("SUCCEEDED", "FAILED_CONTINUE"):
@@ -64,9 +66,9 @@ class DataflowMonitor(Monitor):
                 v.append({"kind": "finished-stage-publishes-other-than-it-produced", "stage": lab, "durable": durable,
                           "produced_this_iteration": want, "stale_keys": extra,
                           "sig": "published-differs:" + ("stale-key" if extra else "value")})
-        return {"out": model}, v
+        return {"out": model, "last": last}, v
 
-    def check_seen(self, tr, e, s, spec, model):
+    def check_seen(self, tr, e, s, spec, model, prev_seen):
         v = []
         anc = self.wl.ancestors(s)
         ref = {}
@@ -100,9 +102,13 @@ class DataflowMonitor(Monitor):
                 continue  # unordered producers: the property makes no claim
             if seen.get(k, "<missing>") != exp:
                 it = any(st["ctx"].get("_jump_count") for st in tr.pre.stages.values())
+                # the recorded defect: in a later loop iteration the stage still sees exactly the value it saw in
+                # its own previous execution (the inherited copy kept in its context); anything else is new
+                same_as_before = k in prev_seen and seen.get(k, "<missing>") == prev_seen[k]
+                cls = "plain" if not it else ("stale-after-jump" if same_as_before else "wrong-in-loop")
                 v.append({"kind": "saw-wrong-upstream-value", "stage": s, "key": k, "saw": seen.get(k, "<missing>"),
-                          "expected": exp, "producers": sorted(rel), "own": own,
-                          "sig": f"value-differs:{'stale-after-jump' if it else 'plain'}"})
+                          "expected": exp, "producers": sorted(rel), "own": own, "previous_execution_saw": prev_seen.get(k),
+                          "sig": f"value-differs:{cls}"})
         for k in seen:
             if k.startswith("_") or k in spec.ctx:
                 continue
